@@ -6,7 +6,8 @@ use std::cell::RefCell;
 /// (however many requests an implementation makes, the entropy it gathers is a prefix of the stream);
 /// request number `fail_at` fails, and so does every later one unless `once`.
 #[derive(Default)]
-pub struct Script { pub pattern: Vec<u8>, pub pos: usize, pub fail_at: Option<usize>, pub once: bool, pub requests: Vec<(usize, bool)>, pub handed: Vec<u8>, pub active: bool }
+pub struct Script { pub pattern: Vec<u8>, pub pos: usize, pub fail_at: Option<usize>, pub once: bool, /// number of consecutive failing requests from `fail_at` on (overrides `once`), and the errno they report (0 = EIO)
+    pub fail_n: Option<usize>, pub errno: i32, pub requests: Vec<(usize, bool)>, pub handed: Vec<u8>, pub active: bool }
 thread_local! { pub static SCRIPT: RefCell<Script> = RefCell::new(Script::default()); }
 /// every byte a scripted source handed out in this process, in request order (an implementation that buffers entropy per
 /// thread or per process may serve a generation from bytes it fetched during an earlier case)
@@ -22,9 +23,9 @@ pub unsafe extern "C" fn getentropy(buf: *mut u8, len: usize) -> i32 {
             for i in 0..len { *buf.add(i) = (i as u8).wrapping_mul(37).wrapping_add(11); } return 0;
         }
         let k = s.requests.len();
-        let fail = s.fail_at.map_or(false, |f| if s.once { k == f } else { k >= f });
+        let fail = s.fail_at.map_or(false, |f| match s.fail_n { Some(n) => k >= f && k - f < n, None => if s.once { k == f } else { k >= f } });
         s.requests.push((len, !fail));
-        if fail { *__errno_location() = 5; return -1; } // EIO
+        if fail { *__errno_location() = if s.errno == 0 { 5 /* EIO */ } else { s.errno }; return -1; }
         let from = s.handed.len();
         for i in 0..len { let v = if s.pattern.is_empty() { 0 } else { s.pattern[s.pos % s.pattern.len()] }; s.pos += 1; *buf.add(i) = v; s.handed.push(v); }
         if let Ok(mut all) = ALL_HANDED.lock() { if all.len() < (64 << 20) { all.extend_from_slice(&s.handed[from..]); } }
@@ -45,8 +46,13 @@ pub unsafe extern "C" fn getrandom(buf: *mut u8, len: usize, flags: u32) -> isiz
 pub fn with_script_on_fresh_thread<T: Send>(pattern: Vec<u8>, fail_at: Option<usize>, once: bool, f: impl FnOnce() -> T + Send) -> (T, Vec<(usize, bool)>, Vec<u8>) {
     std::thread::scope(|sc| std::thread::Builder::new().stack_size(16 << 20).spawn_scoped(sc, move || with_script(pattern, fail_at, once, f)).expect("spawn").join().expect("the case thread died"))
 }
-pub fn with_script<T>(pattern: Vec<u8>, fail_at: Option<usize>, once: bool, f: impl FnOnce() -> T) -> (T, Vec<(usize, bool)>, Vec<u8>) {
-    SCRIPT.with(|s| *s.borrow_mut() = Script { pattern, pos: 0, fail_at, once, requests: vec![], handed: vec![], active: true });
+pub fn with_script<T>(pattern: Vec<u8>, fail_at: Option<usize>, once: bool, f: impl FnOnce() -> T) -> (T, Vec<(usize, bool)>, Vec<u8>) { with_script_errno(pattern, fail_at, once, None, 0, f) }
+/// the failing window is `fail_n` requests long (None: one request if `once`, else all later ones) and reports `errno` (0: EIO)
+pub fn with_failures_on_fresh_thread<T: Send>(pattern: Vec<u8>, fail_at: Option<usize>, once: bool, fail_n: Option<usize>, errno: i32, f: impl FnOnce() -> T + Send) -> (T, Vec<(usize, bool)>, Vec<u8>) {
+    std::thread::scope(|sc| std::thread::Builder::new().stack_size(16 << 20).spawn_scoped(sc, move || with_script_errno(pattern, fail_at, once, fail_n, errno, f)).expect("spawn").join().expect("the case thread died"))
+}
+pub fn with_script_errno<T>(pattern: Vec<u8>, fail_at: Option<usize>, once: bool, fail_n: Option<usize>, errno: i32, f: impl FnOnce() -> T) -> (T, Vec<(usize, bool)>, Vec<u8>) {
+    SCRIPT.with(|s| *s.borrow_mut() = Script { pattern, pos: 0, fail_at, once, fail_n, errno, requests: vec![], handed: vec![], active: true });
     let r = f();
     let (req, handed) = SCRIPT.with(|s| { let mut s = s.borrow_mut(); s.active = false; (std::mem::take(&mut s.requests), std::mem::take(&mut s.handed)) });
     (r, req, handed)
